@@ -1,11 +1,18 @@
 package spine
 
-import "github.com/enbility/spine-go/model"
+import (
+	"sync"
+
+	"github.com/enbility/spine-go/model"
+)
 
 type Device struct {
 	address    *model.AddressDeviceType
 	dType      *model.DeviceTypeType
 	featureSet *model.NetworkManagementFeatureSetType
+
+	// the values of a remote device are updated with its detailed discovery data
+	muxValues sync.RWMutex
 }
 
 // Initialize a new device
@@ -30,14 +37,23 @@ func NewDevice(address *model.AddressDeviceType, dType *model.DeviceTypeType, fe
 }
 
 func (r *Device) Address() *model.AddressDeviceType {
+	r.muxValues.RLock()
+	defer r.muxValues.RUnlock()
+
 	return r.address
 }
 
 func (r *Device) DeviceType() *model.DeviceTypeType {
+	r.muxValues.RLock()
+	defer r.muxValues.RUnlock()
+
 	return r.dType
 }
 
 func (r *Device) FeatureSet() *model.NetworkManagementFeatureSetType {
+	r.muxValues.RLock()
+	defer r.muxValues.RUnlock()
+
 	return r.featureSet
 }
 
